@@ -115,6 +115,11 @@ func matchCells(grid [][]vt.Cell, W int, cells []placed, startRow, startCol, end
 		for c := 0; c < W; c++ {
 			if r == startRow && c < startCol {
 				if freeLeft {
+					// left of a continuation line: blank, or the library's decoration (secondary
+					// prompt, multi-line column); anything else is a remnant of earlier content
+					if g := cellAt(grid, r, c); !blankCell(g) && !isSpaceCell(g) && string(g.R) != "\u2514" && string(g.R) != "\u2502" {
+						return false, fmt.Sprintf("cell (%d,%d), left of a continuation line, holds %q: neither blank nor a decoration glyph", r, c, string(g.R))
+					}
 					continue
 				}
 				continue // prompt cells are checked by the caller
